@@ -104,6 +104,33 @@ def run(cx):
             inst.violation(ia.path, "is_active", "RemoteClient::is_active returns true in a state other than Active")
 
 
+def is_active_exact(cx, iid):
+    """T7: RemoteClient::is_active is `state is Active`: it prunes active_clients in step() (a Closing connection must not
+    keep an active slot) and is the application's way to ask whether an address has completed the handshake."""
+    R = cx.R
+    with cx.instance(iid, "T7 SHAPE", "RemoteClient::is_active returns true exactly in state Active", floor=1) as inst:
+        ia = R.body("RemoteClient::is_active")
+        fa = cx.fa(ia)
+        from mirlib import dnf_holds
+        seen = set()
+        for loc, s in ia.assigns():
+            if not s["pl"]["p"] and s["pl"]["l"] == 0:
+                v = show(ia.rvalue_expr(s["rv"]))
+                inst.site(ia, loc, "is_active -> " + v)
+                act, _ = dnf_holds(fa.at(loc), [[r"is\(arg1\.state,Active\)"]])
+                nact, _ = dnf_holds(fa.at(loc), [[r"!is\(arg1\.state,Active\)"], [r"is\(arg1\.state,(Pending|Closing|Closed|Fin)\)"]])
+                seen.add(v)
+                if v == "true" and not act:
+                    inst.violation(ia.path, "is_active", "RemoteClient::is_active returns true in a state other than Active", at=ia.span_at(loc))
+                elif v == "false" and not nact:
+                    inst.violation(ia.path, "is_active", "RemoteClient::is_active can return false for an Active client", at=ia.span_at(loc))
+                elif v not in ("true", "false"):
+                    if v not in ("is(arg1.state,Active)",):
+                        inst.violation(ia.path, "is_active", "RemoteClient::is_active is `%s`" % v[:80], at=ia.span_at(loc))
+        if not seen:
+            inst.violation(ia.path, "is_active", "no result of is_active found (anchor)")
+
+
 def promotion_pairing(cx, iid):
     """T2: a promoted connection is serviced and counted: in handle_handshake_ack every write of State::Active is followed
     on all paths by the push into active_clients (a connection that is Active but not in the list is never flushed, stepped,
@@ -210,6 +237,7 @@ def run(cx):
     from props.shared import config_verbatim
     config_verbatim(cx, "C17.h")
     promotion_pairing(cx, "C17.i")
+    is_active_exact(cx, "C17.j")
 
 
 SELFTEST = [
